@@ -220,15 +220,18 @@ func (p *VipnodePool) Update(ctx context.Context, sig string, nodeID string, non
 	peerIDs := ethnode.Peers(req.PeerInfo).IDs()
 	count := len(req.PeerInfo)
 
+	checkinFrom := time.Now()
 	inactive, err := p.Store.UpdateNodePeers(store.NodeID(nodeID), peerIDs, req.BlockNumber)
 	if err != nil {
 		return nil, err
 	}
+	checkinTo := time.Now()
 	// The update has checked in now. If it fails from here on, nothing is
 	// billed, so the time since the previous update must stay billable: put
 	// the previous check-in back (the low balance cut-off is not a failure in
 	// that sense, its charge stands).
 	billed := false
+	var checkedIn time.Time // The check-in that UpdateNodePeers saved, once it is read back
 	defer func() {
 		if billed {
 			return
@@ -238,12 +241,28 @@ func (p *VipnodePool) Update(ctx context.Context, sig string, nodeID string, non
 			logger.Printf("Failed update of %s: failed to restore the previous check-in: %s", pretty.Abbrev(nodeID), err)
 			return
 		}
+		ours := !current.LastSeen.Before(checkinFrom) && !current.LastSeen.After(checkinTo)
+		if !checkedIn.IsZero() {
+			ours = current.LastSeen.Equal(checkedIn)
+		}
+		if !ours {
+			// Not the check-in of this update anymore: the node has
+			// registered again in the meantime. That check-in stands, it is
+			// what the next update is billed from.
+			return
+		}
 		current.LastSeen = node.LastSeen
 		current.BlockNumber = node.BlockNumber
 		if err := p.Store.SetNode(*current); err != nil {
 			logger.Printf("Failed update of %s: failed to restore the previous check-in: %s", pretty.Abbrev(nodeID), err)
 		}
 	}()
+
+	updated, err := p.Store.GetNode(store.NodeID(nodeID))
+	if err != nil {
+		return nil, err
+	}
+	checkedIn = updated.LastSeen
 
 	active, err := p.Store.NodePeers(store.NodeID(nodeID))
 	if err != nil {
@@ -271,11 +290,7 @@ func (p *VipnodePool) Update(ctx context.Context, sig string, nodeID string, non
 	// LastSeen that the next update will be billed from was saved a moment ago
 	// by UpdateNodePeers. Whatever time passed since then (slow store, busy
 	// pool) must not be billed by both updates, so leave it to the next one.
-	updated, err := p.Store.GetNode(store.NodeID(nodeID))
-	if err != nil {
-		return nil, err
-	}
-	if sinceSaved := time.Since(updated.LastSeen); sinceSaved > 0 {
+	if sinceSaved := time.Since(checkedIn); sinceSaved > 0 {
 		nodeBeforeUpdate.LastSeen = nodeBeforeUpdate.LastSeen.Add(sinceSaved)
 	}
 
